@@ -126,6 +126,10 @@ func (p *Pair) RestartFollower() error {
 	if err := p.F.Restart(); err != nil {
 		return err
 	}
+	// the table shards are (re)started by the manager's reconcile loop (every 30 s in production); run one round now
+	if err := p.F.E.Manager.VerifReconcile(); err != nil {
+		return err
+	}
 	p.buildManagers()
 	return nil
 }
